@@ -82,7 +82,7 @@ func encodeFunc(P *Program, CS *ContractSet, fn *ssa.Function, ct *Contract) *Fu
 			return res
 		}
 		dir := scratchDir("houdini-" + sanitize(res.Name))
-		dischargeAllOpt(cands, dir, 6, false, 8, false)
+		dischargeAllOpt(cands, dir, 4, false, 16, false)
 		changed := false
 		for _, o := range cands {
 			if !o.Discharged() && !disabled[o.Detail] {
@@ -932,6 +932,9 @@ func (e *Enc) candidateInvariants(li *loopInfo, phiIn map[ssa.Value]Val, st *Sta
 			continue
 		}
 		var kinds []string
+		if !phiMattersForSafety(phi) {
+			continue
+		}
 		if bt, ok := phi.Type().Underlying().(*types.Basic); ok {
 			switch {
 			case bt.Info()&types.IsInteger != 0:
@@ -999,4 +1002,62 @@ func (e *Enc) obligeCand(kind, anchor string, pos token.Pos, reach, cond, key st
 	if len(e.obls) > n {
 		e.obls[len(e.obls)-1].Detail = key
 	}
+}
+
+
+// phiMattersForSafety: the phi (possibly through arithmetic, conversions and other phis) is used as an index, a
+// slice bound, a make size, an indexed/sliced operand, or an argument of a call (which may have a precondition).
+// Candidates are only proposed for such phis: the others cannot help any obligation.
+func phiMattersForSafety(phi *ssa.Phi) bool {
+	seen := map[ssa.Value]bool{}
+	var walk func(v ssa.Value, depth int) bool
+	walk = func(v ssa.Value, depth int) bool {
+		if seen[v] || depth > 4 {
+			return false
+		}
+		seen[v] = true
+		refs := v.Referrers()
+		if refs == nil {
+			return false
+		}
+		for _, r := range *refs {
+			switch x := r.(type) {
+			case *ssa.IndexAddr:
+				return true
+			case *ssa.Index:
+				return true
+			case *ssa.Slice:
+				return true
+			case *ssa.MakeSlice:
+				return true
+			case *ssa.Lookup:
+				if x.X == v {
+					if _, isStr := x.X.Type().Underlying().(*types.Basic); isStr {
+						return true
+					}
+				}
+			case ssa.CallInstruction:
+				if _, isBuiltin := x.Common().Value.(*ssa.Builtin); !isBuiltin {
+					return true
+				}
+			case *ssa.Phi:
+				if walk(x, depth+1) {
+					return true
+				}
+			case *ssa.BinOp:
+				switch x.Op {
+				case token.ADD, token.SUB, token.MUL, token.QUO, token.REM:
+					if walk(x, depth+1) {
+						return true
+					}
+				}
+			case *ssa.Convert:
+				if walk(x, depth+1) {
+					return true
+				}
+			}
+		}
+		return false
+	}
+	return walk(phi, 0)
 }
